@@ -119,6 +119,22 @@ pub fn plan(prop: &str) -> Vec<Item> {
         "C14" => with_pre(&mut v, &[("drop_obj", "pool=1,state=3,dropper=0"), ("drop_obj", "pool=1,state=4,dropper=0"), ("fs_cancel", "pool=1,mode=3,raw=0"), ("sync_states", "pool=1,st=5,n=1,raw=0"), ("fd_result", "pool=1,mode=3,raw=0")], Some(1), 2),
         _ => {}
     }
+    // the exclusivity and order oracles are armed inside every operation body, so C01 and C02 also explore the targeted instances
+    // of the liveness properties (at a preemption bound of at most 1 in the quick tier)
+    if prop == "C01" || prop == "C02" {
+        let mut seen: std::collections::BTreeSet<(String, String)> = v.iter().map(|i| (i.scenario.to_string(), i.cfg.to_string())).collect();
+        for q in ["C04", "C05", "C06", "C07", "C08", "C09", "C13"] {
+            for i in plan_base(q) {
+                if i.scenario == "prog" || !seen.insert((i.scenario.to_string(), i.cfg.to_string())) {
+                    continue;
+                }
+                let mut i = i;
+                i.quick = i.quick.map(|b| b.min(1));
+                i.thorough = i.thorough.min(2);
+                v.push(i);
+            }
+        }
+    }
     // generated programs with a saturated start
     match prop {
         "C01" | "C02" | "C03" | "C04" | "C06" | "C07" | "C08" | "C09" => {
@@ -230,6 +246,10 @@ fn plan_base(prop: &str) -> Vec<Item> {
                 }
             }
             v.push(it("sync_states", "pool=1,st=7,n=1", Some(2), 3));
+            for pool in [0, 1] {
+                v.push(it("sync_states", &format!("pool={},st=5,n=1,selfwake=1", pool), Some(2), 3));
+            }
+            v.push(it("sync_states", "pool=0,st=5,n=2,selfwake=1", Some(2), 3));
             v.push(it("sync_states", "pool=2,st=7,n=2", Some(1), 2));
             v.push(it("sync_states", "pool=2,st=8,n=1", Some(2), 3));
             v.push(it("sync_states", "pool=2,st=3,n=2", Some(1), 2));
@@ -256,6 +276,14 @@ fn plan_base(prop: &str) -> Vec<Item> {
             }
             v.push(it("pipe_in_items", "pool=1,n=1,pat=1,conc=2,fin=1", Some(2), 3));
             v.push(it("pipe_drop_output", "pool=1,mode=0", Some(2), 3));
+            for pool in [0, 1] {
+                for dropper in [0, 3] {
+                    v.push(it("drop_obj", &format!("pool={},state=5,dropper={}", pool, dropper), Some(2), 3));
+                }
+                for state in [0, 2, 3] {
+                    v.push(it("drop_obj", &format!("pool={},state={},dropper=3", pool, state), Some(2), 3));
+                }
+            }
             for pool in [0, 1, 2] {
                 for dropper in [0, 2] {
                     v.push(it("drop_obj", &format!("pool={},state=4,dropper={}", pool, dropper), Some(if pool == 2 { 1 } else { 2 }), if pool == 2 { 2 } else { 3 }));
@@ -278,6 +306,15 @@ fn plan_base(prop: &str) -> Vec<Item> {
             for wake in [0, 1, 2] {
                 for pool in [0, 1] {
                     v.push(it("wake_ctx", &format!("pool={},kind=2,ctx=2,wake={}", pool, wake), Some(2), 3));
+                }
+            }
+            // the operation wakes itself during its first poll and then suspends on the external event
+            for (ctx, pool) in [(0, 1), (1, 0), (1, 1), (2, 0), (2, 1)] {
+                for kind in [0, 2] {
+                    if kind == 2 && ctx != 2 {
+                        continue;
+                    }
+                    v.push(it("wake_ctx", &format!("pool={},kind={},ctx={},wake=0,selfwake=1", pool, kind, ctx), Some(2), 3));
                 }
             }
             v.push(it("sync_states", "pool=1,st=5,n=1", Some(2), 3));
@@ -310,6 +347,12 @@ fn plan_base(prop: &str) -> Vec<Item> {
                 }
             }
             v.push(it("fd_result", "pool=1,mode=0,gated=0", Some(2), 3));
+            for mode in [0, 1] {
+                for pool in [0, 1] {
+                    v.push(it("fd_result", &format!("pool={},mode={},selfwake=1", pool, mode), Some(2), 3));
+                }
+            }
+            v.push(it("fd_result", "pool=1,mode=1,selfwake=1,sat=1", Some(1), 2));
             for mode in [5, 6] {
                 for pool in [1, 2] {
                     v.push(it("fd_result", &format!("pool={},mode={}", pool, mode), Some(if pool == 1 { 2 } else { 1 }), if pool == 1 { 3 } else { 2 }));
@@ -336,6 +379,11 @@ fn plan_base(prop: &str) -> Vec<Item> {
                 }
             }
             v.push(it("fs_cancel", "pool=0,mode=0", Some(3), 4));
+            for pool in [0, 1] {
+                v.push(it("fs_cancel", &format!("pool={},mode=4", pool), Some(2), 3));
+            }
+            v.push(it("fs_cancel", "pool=1,mode=4,sat=1", Some(1), 2));
+            v.push(it("fs_cancel", "pool=1,mode=4,ahead=1", Some(2), 3));
             v.push(it("fs_cancel", "pool=1,mode=3,ahead=1", Some(2), 3));
             for mode in [2, 3] {
                 for syncer in [1, 2] {
@@ -407,6 +455,8 @@ fn plan_base(prop: &str) -> Vec<Item> {
             v.push(it("pipe_in_items", "pool=0,n=20,pat=0,conc=1", Some(0), 1));
             v.push(it("pipe_in_items", "pool=2,n=2,pat=1,conc=1", Some(1), 2));
             v.push(it("pipe_in_items", "pool=1,n=2,pat=1,conc=0,pin=1", Some(2), 3));
+            v.push(it("pipe_in_items", "pool=1,n=1,pat=9,conc=0,dropmid=1", Some(2), 3));
+            v.push(it("pipe_in_items", "pool=2,n=1,pat=9,conc=0,dropmid=1", Some(1), 2));
             v.push(it("pipe_in_items", "pool=1,n=1,pat=1,conc=2,pin=1", Some(2), 3));
             v.push(it("pipe_in_items", "pool=2,n=2,pat=2,conc=0,pin=1", Some(1), 2));
             v.push(it("pipe_in_items", "pool=0,n=2,pat=1,conc=1", Some(2), 3));
@@ -426,6 +476,10 @@ fn plan_base(prop: &str) -> Vec<Item> {
                 }
             }
             v.push(it("pipe_out", "pool=2,n=2,d=1,pat=1", Some(1), 2));
+            for what in [0, 1] {
+                v.push(it("pipe_rewake", &format!("pool=1,what={}", what), Some(2), 3));
+                v.push(it("pipe_rewake", &format!("pool=2,what={}", what), Some(1), 2));
+            }
             v.push(it("pipe_steal", "pool=1", Some(2), 3));
             v.push(it("pipe_steal", "pool=2", Some(1), 2));
             v.push(it("pipe_out", "pool=1,n=4,d=3,pat=2", None, 2));
@@ -550,7 +604,7 @@ pub fn owners(scenario: &str, part: &str) -> Vec<&'static str> {
         "excl_drop" => vec!["C07", "C01", "C04"],
         "order_ctx" => vec!["C02", "C03"],
         "pipe_in_items" => vec!["C11", "C03"],
-        "pipe_out" | "pipe_steal" => vec!["C12"],
+        "pipe_out" | "pipe_steal" | "pipe_rewake" => vec!["C12"],
         "pipe_drop_output" => vec!["C16"],
         "f2_dormant_race" | "desync_then_sync" | "stale_entry" => vec!["C03"],
         "prog" => {
@@ -617,7 +671,7 @@ pub fn owners(scenario: &str, part: &str) -> Vec<&'static str> {
         "CANARY" => vec!["C14", "C05"],
         "PIPE-LEAK" => vec!["C16"],
         "PIPE-IN-ITEMS" | "PIPE-IN-STRONG" | "PIPE-IN-LEAK" => vec!["C11"],
-        "PIPE-OUT-ITEMS" | "PIPE-OUT-LEAK" => vec!["C12"],
+        "PIPE-OUT-ITEMS" | "PIPE-OUT-LEAK" | "PIPE-OUT-WAKE" => vec!["C12"],
         "CENSUS" => vec!["C17"],
         "SUSPEND-EARLY" | "SUSPEND-LEAK" | "SUSPEND-ORDER" | "SUSPEND-CANCELED" => vec!["C13"],
         "PANIC-SILENT" | "PANIC-BLOCKED" | "PANIC-CAPACITY" | "PANIC-LOST" => vec!["C15"],
